@@ -67,6 +67,7 @@ Definition guard_spec : list fspec := [
   Im "Hub" "mdns" hub_new;
   G "Hub" "knownMdnsEntries" "muxMdns" hub_new;
   G "Hub" "hasStarted" "muxStarted" hub_new;
+  G "Hub" "hasShutdown" "muxStarted" hub_new;
   (* ship.ShipConnection *)
   Im "ShipConnection" "role" ship_new;
   Im "ShipConnection" "remoteSKI" ship_new;
